@@ -1,6 +1,6 @@
 (* C20 — property theorems only.  Statements are full; proofs are [exact lemma]. *)
 From Coq Require Import List Bool Permutation.
-From LE Require Import Conc.RWMutex Conc.Skeleton Conc.Progress Conc.SharedAppend Gen.Skeletons Conc.Instances.
+From LE Require Import Conc.RWMutex Conc.Skeleton Conc.Progress Conc.SharedAppend Conc.SnapshotRead Gen.Skeletons Conc.Instances.
 Import ListNotations.
 
 (* Progress for safe skeletons under the writer-preferring RWMutex: if every program is balanced on every path, never
@@ -58,6 +58,26 @@ Proof. intros A. exact bulk_lookup_exactly_once. Qed.
 (* ... and every goroutine fan-out of the listed files uses one of these two disciplines (classified from the source) *)
 Theorem C20_fanouts_not_racy : forallb (fun p => discipline_ok (snd p)) fanouts = true.
 Proof. exact fanouts_ok. Qed.
+
+(* complete blocks: a block is stored under several keys committed in one batch.  A getter that performs all its reads
+   on one snapshot returns, in every state of every history of batches, exactly the block committed under that id or
+   "not found" - never the header of one state with the transactions of another *)
+Theorem C20_snapshot_read_atomic : forall s0 ops n id,
+  let s := fold_left apply (firstn n ops) s0 in
+  read_snapshot s id = lookup id s.
+Proof. exact snapshot_read_committed. Qed.
+(* ... every getter of the listed files that assembles a block from its parts reads through one snapshot (from the source) *)
+Theorem C20_multi_reads_use_one_snapshot :
+  andb (negb (match multi_reads with [] => true | _ => false end))
+       (forallb (fun p => read_discipline_ok (snd p)) multi_reads) = true.
+Proof. exact multi_reads_ok. Qed.
+(* ... whereas separate Gets racing with ONE removal return a block that no state of the history ever contained *)
+Theorem C20_separate_reads_torn_refuted :
+  exists s0 ops id torn,
+    let s1 := fold_left apply ops s0 in
+    read_separate s0 s1 s1 id = Some torn /\
+    forall s, In s (history s0 ops) -> read_snapshot s id <> Some torn.
+Proof. exact separate_reads_torn_refuted. Qed.
 
 (* the unsafe patterns really are stuck / lossy: none of the premises can be dropped *)
 Theorem C20_nested_rlock_refuted : exists c, reachable (init [last_unsafe; push_prog]) c /\ stuck c.
